@@ -1,13 +1,14 @@
 package updog
 
 import (
+	"encoding/binary"
 	"fmt"
-	"math/bits"
 	"sort"
 	"strings"
 	"time"
 
 	"github.com/RoaringBitmap/roaring"
+	"github.com/cespare/xxhash/v2"
 )
 
 // Query describes a count query to execute on an index. updog allows you to run
@@ -251,7 +252,36 @@ const (
 )
 
 func (e *ExprNot) cacheKey() uint64 {
-	return bits.RotateLeft64(e.Expr.cacheKey(), 1) ^ maskNot
+	return combineCacheKeys(maskNot, e.Expr.cacheKey())
+}
+
+// combineCacheKeys derives the cache key of an operator node from the
+// operator's mask, the number of operands and the operands' keys by hashing
+// them. Simply XOR-ing the operand keys lets expressions with different
+// meaning share a key (operands occurring twice cancel each other out, and
+// the masks of nested operators can cancel as well).
+func combineCacheKeys(mask uint64, keys ...uint64) uint64 {
+	buf := make([]byte, 0, 8*(len(keys)+2))
+	buf = binary.BigEndian.AppendUint64(buf, mask)
+	buf = binary.BigEndian.AppendUint64(buf, uint64(len(keys)))
+	for _, k := range keys {
+		buf = binary.BigEndian.AppendUint64(buf, k)
+	}
+
+	return xxhash.Sum64(buf)
+}
+
+// commutativeCacheKey is combineCacheKeys for AND and OR, whose result doesn't
+// depend on the order of operands: the operand keys are sorted first.
+func commutativeCacheKey(mask uint64, exprs []Expression) uint64 {
+	keys := make([]uint64, 0, len(exprs))
+	for _, e := range exprs {
+		keys = append(keys, e.cacheKey())
+	}
+
+	sort.Slice(keys, func(i, j int) bool { return keys[i] < keys[j] })
+
+	return combineCacheKeys(mask, keys...)
 }
 
 type ExprAnd struct {
@@ -302,12 +332,7 @@ func (e *ExprAnd) String() string {
 }
 
 func (e *ExprAnd) cacheKey() uint64 {
-	key := uint64(maskAnd)
-	for _, e := range e.Exprs {
-		key = key ^ bits.RotateLeft64(e.cacheKey(), 1)
-	}
-
-	return key
+	return commutativeCacheKey(maskAnd, e.Exprs)
 }
 
 type ExprOr struct {
@@ -358,10 +383,5 @@ func (e *ExprOr) String() string {
 }
 
 func (e *ExprOr) cacheKey() uint64 {
-	key := uint64(maskOr)
-	for _, e := range e.Exprs {
-		key = key ^ bits.RotateLeft64(e.cacheKey(), 1)
-	}
-
-	return key
+	return commutativeCacheKey(maskOr, e.Exprs)
 }
